@@ -13,6 +13,22 @@ from .impl_thr import CALLS, _CountHandler, err_kind, py_tags, py_timing
 from .vloop import LoopSpin, VirtualLoop
 
 
+class _FalsyError(Exception):
+    def __bool__(self):
+        return False
+
+
+def exc_of(kind):
+    """exception class raised by a scripted coroutine failure (any Exception subclass)"""
+    return {"ValueError": ValueError, "TimeoutError": asyncio.TimeoutError, "KeyError": KeyError, "OSError": OSError,
+            "LookupError": LookupError, "StopAsyncIteration": StopAsyncIteration, "InvalidStateError": asyncio.InvalidStateError,
+            "RuntimeError": RuntimeError, "FalsyError": _FalsyError}.get(kind if isinstance(kind, str) else "ValueError", ValueError)
+
+
+AIO_EXC = ["ValueError", "ValueError", "TimeoutError", "KeyError", "OSError", "LookupError", "StopAsyncIteration",
+           "InvalidStateError", "RuntimeError", "FalsyError"]
+
+
 class AioRunner:
     def __init__(self, scn):
         core.install_clock()
@@ -76,7 +92,7 @@ class AioRunner:
             asyncio.get_running_loop().call_soon(runner.probe, key)
             if script.get("raises"):
                 runner.events.append((CLOCK.instant, key, "X", due))
-                raise ValueError("scripted failure")
+                raise exc_of(script["raises"])("scripted failure")
             runner.events.append((CLOCK.instant, key, "E", due))
 
         cb.__qualname__ = "cb"
